@@ -102,3 +102,46 @@ func ReadRecord(r io.Reader) ([]byte, error) {
 	n, err := io.ReadFull(r, rec[5:])
 	return rec[:5+n], err
 }
+
+// Flow steps a Conn through a scripted exchange: client records are fed to the
+// transport and read back through the Conn; backend records are written
+// through the Conn and observed on the transport.
+type Flow struct {
+	Tap  *tap.Conn
+	Conn *ech.Conn
+	wOff int
+}
+
+// StartFlow runs NewConn on the first record (more input may follow later).
+func StartFlow(first []byte, keys []ech.Key) (*Flow, Outcome) {
+	tc := tap.New(nil)
+	tc.Feed(first)
+	var opts []ech.Option
+	if keys != nil {
+		opts = append(opts, ech.WithKeys(keys))
+	}
+	c, err := ech.NewConn(context.Background(), tc, opts...)
+	o := Outcome{Err: err, Class: Class(err), Conn: c, Tap: tc}
+	if err != nil {
+		return &Flow{Tap: tc, Conn: c}, o
+	}
+	o.Accepted, o.Presented, o.SNI, o.ALPN = c.ECHAccepted(), c.ECHPresented(), c.ServerName(), c.ALPNProtos()
+	o.First, o.FirstErr = ReadRecord(c)
+	return &Flow{Tap: tc, Conn: c}, o
+}
+
+// Client feeds one client record and reads one record from the Conn.
+func (f *Flow) Client(record []byte) ([]byte, error) {
+	f.Tap.Feed(record)
+	return ReadRecord(f.Conn)
+}
+
+// Backend writes one backend record through the Conn and returns what
+// reached the client-side transport because of it.
+func (f *Flow) Backend(record []byte) (delivered []byte, n int, err error) {
+	n, err = f.Conn.Write(record)
+	w := f.Tap.Written()
+	delivered = w[f.wOff:]
+	f.wOff = len(w)
+	return
+}
